@@ -1,7 +1,40 @@
-(* C03 — exact phrase frequency counts contiguous in-order occurrences (theorems are added as they close) *)
-From SA Require Import Base.Prelude Index.Index Query.Phrase Query.Phrase_Spec.
+(* C03 — exact phrase frequency counts contiguous in-order occurrences.
+   Statement-only file.  Model: Query/Phrase.v (line-level bigram chain).  Spec: Query/Phrase_Spec.v. *)
+From Coq Require Import Sorted.
+From SA Require Import Base.Prelude Codec.Codec_Spec Index.Index Query.Phrase Query.Phrase_Spec
+  Query.Phrase_Proofs Query.Phrase_Proofs2 Query.Phrase_Proofs3.
 Open Scope N_scope.
-(* regression witnesses for D1 (halves apart) and a word-boundary crossing *)
+
+(* the bigram step: on well-formed posting lists (strictly increasing headers, buckets <= 14563, zero payloads
+   allowed on the left) with no common word, the continuation holds exactly the END positions p+1 of the
+   bigrams (p in A, p+1 in B) and the per-document counts are their numbers; both continuations *)
+Theorem C03_bigram_step_rhs : forall A B, wf_post A -> wf_post B ->
+  N.of_nat (length A) < 2 ^ 62 -> N.of_nat (length B) < 2 ^ 62 -> nocommon A B ->
+  exists counts next, bigram_freqs CR A B = AOk (counts, next) /\ wf_post next /\
+    (forall d, dposns next d = map N.succ (filter (fun p => existsb (N.eqb (p + 1)) (dposns B d)) (dposns A d))) /\
+    StronglySorted N.lt (map fst counts) /\
+    (forall d, match lookup d counts with
+               | Some n => n = N.of_nat (length (dposns next d))
+               | None => dposns next d = [] end).
+Proof. exact bigram_step_CR. Qed.
+Print Assumptions C03_bigram_step_rhs.
+
+(* the whole chain, either strategy (left-to-right or right-to-left), on the encodings of per-term
+   (doc, position) lists with positions <= 262142 and no two consecutive terms sharing a position:
+   for every document the reported count (0 when unlisted) is the number of occurrences of the phrase *)
+Theorem C03_chain_counts_occurrences : forall pss, (2 <= length pss)%nat -> Forall good_term pss -> adj_distinct pss ->
+  exists res, compute_phrase_freqs (map encode_spec pss) = AOk res /\
+    StronglySorted N.lt (map fst res) /\
+    forall ph d doc,
+      Forall2 (fun t ps => map snd (filter (fun kp => fst kp =? d) ps) = offsets t doc) ph pss ->
+      match lookup d res with Some n => n | None => 0 end = occ ph doc.
+Proof. exact phrase_on_encoded. Qed.
+Print Assumptions C03_chain_counts_occurrences.
+
+(* NOT proved: the adjacent-repeats clause (phrases such as 'a a b': support and the bounds
+   non-overlapping <= freq <= overlapping); checked three-way on generated inputs only. *)
+
+(* regression witness for D1 (halves apart) *)
 Example C03_witnesses :
   match index false 100 [[1;2;9;3;1;2];[1;2];[1;2]] with
   | AOk ix => phrase_freqs ix [1;2;3;1;2] = AOk (phrase_spec [[1;2;9;3;1;2];[1;2];[1;2]] [1;2;3;1;2])
